@@ -5,7 +5,8 @@ import SimbodyModel.C23
 * `I buf nops (code x y z)*`   ops on a `Measure_Delay_Buffer<Real>` pair (current / other):
       1 append tEarliest tNow v | 2 prepend t v _ | 3 other.copyInAndUpdate(current, tEarliest, tNow, v); swap |
       4 query tDelay | 5 clear
-    → `O sizes …` `O caps …` (after every op) / `O vals …` (queries) / `O final t v t v …`
+    → `O sizes …` (after every op) / `O vals …` (queries) / `O final t v t v …`   (capacities depend on `Array_`'s
+      allocation policy and are not compared; the harness checks `size ≤ capacity`)
 * `I ext op N t0 v0 (t v)*N`        → `O val …` / `O time …`     (Extreme on an integrator trajectory; op 0 MaxAbs,1 Maximum,2 MinAbs,3 Minimum)
 * `I delay d N t0 v0 (t v)*N`       → `O val …`
 * `I diff N t0 v0 (t v)*N`          → `O val …`                  (Differentiate, approximation in use)
@@ -60,7 +61,6 @@ def main : IO Unit := do
       | "buf", _ :: ops =>
         let r := runBuf ops
         out.putStrLn (fmtFloats "O sizes" r.sizes.toList)
-        out.putStrLn (fmtFloats "O caps" r.caps.toList)
         out.putStrLn (fmtFloats "O vals" r.vals.toList)
         out.putStrLn (fmtFloats "O final" (r.cur.entries.foldr (fun e acc => e.1 :: e.2 :: acc) []))
       | "ext", opf :: _ :: t0 :: v0 :: steps =>
